@@ -21,10 +21,17 @@ RULE = ("cells = interface x target x step size x max depth x base point x histo
         "level of the catalogue and every start index of the window is executed on the real sampler and its "
         "complete uniform-decision tree is enumerated; non-trivial = at least one start has more than one "
         "reachable end state")
-BOUND = {"quick": "targets: 1-D Gaussian, correlated 2-D Gaussian, 2-D banana; eps in {0.05,0.6,1.3,2.1}; max depth 0,1 "
-                  "(+ depth 2 on one orbit); 1 base point; 3 slice levels; columns -1..1",
-         "thorough": "max depth 0..2 everywhere (+3 for two orbits); 3 base points; 4 slice levels; after-warm-up history"}
+BOUND = {"quick": "targets: 1-D Gaussian, correlated 2-D Gaussian, 2-D banana, stiff/soft 2-D Gaussian; eps in {0.05,0.6,1.3,2.1} (stiff: 0.85, 0.95); "
+                  "max depth 0,1 (+ depth 2 on one orbit, + depth 3 from the base point of one event orbit per value catalogue); 1 base point; "
+                  "3 slice levels; columns -1..1; log-density offsets -800/+800; integer-valued start given as int array / list / float array",
+         "thorough": "max depth 0..2 everywhere (+3 for the event orbits of all catalogues and four stiff/banana orbits); 3 base points; 4 slice "
+                     "levels; after-warm-up history; offsets and start representations on four (target, eps, depth) combinations"}
 ASSUMPTIONS = [
+    "the acceptance statistic fed to step-size adaptation is read off H_bar after warmup(1) (first dual-averaging update) for the "
+    "experimental interface; it is compared with the mean Metropolis probability over the leaves the reference model integrated in "
+    "the last doubling, for depth <= 1 everywhere, depth 2 on the stiff orbits and depth 3 on the event orbits (events counted in "
+    "coverage.branches, e.g. 'second-half-integrated-fewer-leaves')",
+    "a slice variable drawn as log(U(0, exp(H))) is answered by log(exp(H)) - e with the same scripted exponential e (exact law)",
     "one-step invariance per (orbit, slice level) + exactness of the Gibbs refresh steps implies invariance for any "
     "number of transitions (standard argument); orbits/levels are a catalogue",
     "orbit points are matched at 1e-8; slice levels are placed midway between orbit energies so no comparison is "
@@ -87,6 +94,8 @@ BASES = {
     "stiff2": [([-0.3, 1.5], [0.5, 0.4]), ([-1.0, -2.0], [-0.4, 1.1]), ([-0.3, 0.5], [0.9, 1.1])],
 }
 
+
+D3_EVENT = {0: ("banana2", 0.6, 2), 1: ("banana2", 1.0, 1), 2: ("stiff2", 0.5, 0)}     # value catalogue -> (target, step size, base point)
 
 INT_BASES = {   # integer-valued start points (one per value catalogue)
     "gauss1": [([1], [0.9]), ([-2], [0.3]), ([0], [-1.7])],
@@ -192,6 +201,8 @@ def ref_nuts(orb, k, ell, D, decide, finite_guard, cov=None):
                 _, p, prime2, n2, s2, a2, na2 = build(p, v, j - 1)
             if decide(n2 / max(1, n_ + n2), "subtree"):
                 prime = prime2
+            if na2 != na_:
+                hit("second-half-integrated-fewer-leaves")     # matters for the acceptance statistic alpha / n_alpha
             a_ += a2
             na_ += na2
             ut = uturn(m, p)
@@ -258,6 +269,18 @@ def cells(tier, seed):
         for rep in ("int", "list", "float"):
             for t, eps, D in ((("gauss2c", 0.6, 1),) if tier == "quick" else (("gauss2c", 0.6, 1), ("gauss2c", 0.6, 2), ("banana2", 0.6, 1), ("gauss1", 0.6, 1))):
                 yield {"iface": iface, "target": t, "eps": eps, "D": D, "base": "int", "hist": "fresh", "cat": k, "tier": tier, "x0rep": rep, "cols": 0}
+        # depth 3 on the stiff orbits, start at the base point only: doublings whose SECOND half stops after integrating fewer
+        # leaves than the first (U-turn inside the second half's first quarter) - matters for the acceptance statistic
+        if iface == "exp":
+            # (orbit, step and slice level found per value catalogue by scanning the reference model for the event
+            #  "second-half-integrated-fewer-leaves" and taking the smallest decision tree that contains it)
+            for kk3 in ((k,) if tier == "quick" else (0, 1, 2)):
+                t3, eps, b = D3_EVENT[kk3]
+                yield {"iface": iface, "target": t3, "eps": eps, "D": 3, "base": b, "hist": "fresh", "cat": k, "tier": tier, "cols": 0,
+                       "start0": True, "level": "lower-third"}
+            if tier != "quick":
+                for t3, eps, b in (("banana2", 0.6, 2), ("stiff2", 0.7, 0), ("stiff2", 0.85, 0), ("stiff2", 0.95, 1)):
+                    yield {"iface": iface, "target": t3, "eps": eps, "D": 3, "base": b, "hist": "fresh", "cat": k, "tier": tier, "cols": 0, "start0": True}
         # stiff/soft Gaussian with the step near the stability limit of the stiff direction: U-turns *inside* sub-trees
         for eps, bases in (((0.85, (0,)), (0.95, (1,))) if tier == "quick" else ((0.7, (0, 1, 2)), (0.85, (0, 1, 2)), (0.95, (0, 1, 2)))):
             for D in ((2,) if tier == "quick" else (1, 2, 3)):
@@ -316,8 +339,8 @@ def eval_cell(cell):
     lo, hi = -2 * W - c - 1, 2 * W + c + 1
     Hs = {i: orb.H(i) for i in range(lo, hi + 1)}
     starts = list(range(-W - c, W + c + 1))
-    if cell.get("x0rep"):
-        starts = [0]          # only the base point itself is integer-valued
+    if cell.get("x0rep") or cell.get("start0"):
+        starts = [0]          # only the base point itself (x0rep: the only integer-valued point of the orbit)
     # slice levels: below everything, and midpoints at the quantiles of the start energies
     hv = sorted(set(round(v, 12) for v in Hs.values() if np.isfinite(v)))
     sv = sorted(Hs[i] for i in starts if np.isfinite(Hs[i]))
@@ -330,6 +353,11 @@ def eval_cell(cell):
             lv = 0.5 * (below[-1] + min(v for v in hv if v > below[-1]))
             if all(abs(lv - x) > 1e-7 for x in hv) and all(abs(lv - y) > 1e-9 for y in levels):
                 levels.append(lv)
+    if cell.get("start0"):
+        levels = levels[:1]      # depth-3 trees are large: one slice level (everything inside the slice) ...
+        if cell.get("level") == "lower-third":      # ... or the level between the energies at the lower third of a 33-point window
+            hw = sorted(v for v in (orb.H(i) for i in range(-16, 17)) if np.isfinite(v))
+            levels = [0.5 * (hw[len(hw) // 3] + hw[len(hw) // 3 + 1])]
     nontrivial = False
     for ell in levels:
         S = [i for i in range(lo, hi + 1) if Hs[i] >= ell]
@@ -467,7 +495,9 @@ def run_start(cell, tgt, orb, kk, ell, D, eps, saved, res, comp, facet, lo, hi, 
     if row and not close(ptot, 1.0, 1e-9):
         res.fail("C08|%s|row-sum|%s" % (comp, facet), "row %d sums to %.12g" % (kk, ptot))
     # ---- (vi) acceptance statistic fed to dual averaging (experimental, first tuning call) ----------
-    if iface == "exp" and saved is None and kk in (0, 1) and D <= 1:
+    # (D <= 1 everywhere; on the stiff orbits also D = 2, where doublings are stopped INSIDE their second half, so that the
+    #  statistic must be averaged over the leaves that were actually integrated)
+    if iface == "exp" and saved is None and not cell.get("x0rep") and ((kk in (0, 1) and D <= 1) or (cell["target"] == "stiff2" and D == 2 and kk in (-1, 0, 1, 2)) or cell.get("start0")):
         check_alpha_stat(cell, tgt, orb, 0, ell, D, res, comp)
     if res.sample is None and len(row) > 1:
         res.sample = {"level": ell, "start_index": kk, "row": {str(a): b for a, b in sorted(row.items())},
